@@ -62,11 +62,18 @@ def checkPath (j : Json) : Except String (Option String) := do
   let p := path.toList
   let c := child.toList
   let m := merklePath HL p
+  -- the client-side derivation for the path, the path with a child, and with a trailing slash
+  let helpers : List (List String) := (j.getObjValAs? (List (List String)) "helpers").toOption.getD []
+  let want := [p, p ++ '/' :: c, p ++ ['/']].map (fun q =>
+    let r := merkleHelper HL q
+    [String.ofList r.1, String.ofList r.2])
+  let helperD := if helpers == want then none else some s!"field=merkleHelper model={want} impl={helpers}"
   return allSome [
     cmpField "merklePath" (String.ofList m) mp,
     cmpField "childHash" (String.ofList (HL c)) ch,
     cmpField "addToMerkle" (String.ofList (addToMerkle HL m (HL c))) added,
     cmpField "joined" (String.ofList (merklePath HL (p ++ '/' :: c))) joined,
-    cmpField "trailing" (String.ofList (merklePath HL (p ++ ['/']))) trailing]
+    cmpField "trailing" (String.ofList (merklePath HL (p ++ ['/']))) trailing,
+    helperD]
 
 end Driver.Filetree
